@@ -51,6 +51,8 @@ def items(tier):
     out.append({"kind": "labels_enum", "rows": 2})      # two rows, values of length <= 1 over {a, 1}: all 81 assignments as paths (concrete strings per path)
     out.append({"kind": "labels_single", "maxlen": L})
     out.append({"kind": "errors"})
+    # heaviest items first (the pool takes items in order): 4-row frames (normalised ones take 20-30 min), then normalised / bootstrap items
+    out.sort(key=lambda it: -(1000 * (it.get("m", 0) >= 4) * (2 if it.get("normalize") else 1) + 10 * (it["kind"] == "bootstrap") * (3 if it.get("normalize") == "by_min" else 1)))
     return out
 
 
